@@ -7,9 +7,12 @@ needs = " ".join(sys.argv[3:])
 src = f"/tmp/seed/{prop}/seed_out/{m}"
 dst = f"/verif/seeded/{prop}-{m}"
 os.makedirs(dst, exist_ok=True)
-for f in os.listdir(src):
-    if f.startswith(("patch", "demo", "notes")):
-        shutil.copy(os.path.join(src, f), os.path.join(dst, f))
+if os.path.isdir(src):
+    for f in os.listdir(src):
+        if f.startswith(("patch", "demo", "notes")):
+            shutil.copy(os.path.join(src, f), os.path.join(dst, f))
+if not needs and os.path.exists(os.path.join(dst, "meta.json")):
+    needs = json.load(open(os.path.join(dst, "meta.json")))["needs_to_manifest"]
 confirm = ""
 for log in ("/tmp/confirm1.log", "/tmp/confirm2.log", "/tmp/confirm3.log", "/tmp/confirm4.log"):
     if os.path.exists(log):
